@@ -114,6 +114,63 @@ def registered_theorems():
         return json.load(f)
 
 
+def registered_extra():
+    with open(os.path.join(VERIF, "harness", "theorems_extra.json")) as f:
+        return json.load(f)
+
+
+def translation_audit(pid, extra, failures, results):
+    """extra = {"module": ..., "theorems": [...]}.  One obligation for the translation itself (every listed source
+    function is inside the supported subset) and one per gen_* theorem (generated function = hand-written model)."""
+    import fcntl, py2lean
+    os.makedirs(os.path.join(LEAN, ".audit"), exist_ok=True)
+    obligations, discharged = 1 + len(extra["theorems"]), 0
+    with open(os.path.join(LEAN, ".audit", "gen.lock"), "w") as lock:
+        fcntl.flock(lock, fcntl.LOCK_EX)          # C06/C07/C08 run in parallel and share the generated file
+        try:
+            changed, errors = py2lean.regenerate()
+        except Exception as e:
+            changed, errors = False, {"py2lean": "crashed: %r" % e}
+        for fn, e in errors.items():
+            failures.append("translation of %s: %s" % (fn, e))
+        if not errors:
+            discharged += 1
+        p = subprocess.run(["lake", "build", extra["module"]], cwd=LEAN, capture_output=True, text=True)
+    mod = extra["module"]
+    af = os.path.join(LEAN, ".audit", "AuditGen_%s.lean" % pid)
+    with open(af, "w") as f:
+        f.write("import %s\n" % mod)
+        for t in extra["theorems"]:
+            f.write("#print axioms %s\n" % t)
+    if p.returncode != 0:
+        # the module as a whole does not build: find out which theorems still elaborate by checking the proof file alone
+        failures.append("lake build %s failed (generated code no longer provably equal to the model): %s"
+                        % (mod, "\n".join(l for l in (p.stdout + p.stderr).splitlines() if "error" in l)[:1200]))
+        return obligations, discharged
+    q = subprocess.run(["lake", "env", "lean", af], cwd=LEAN, capture_output=True, text=True)
+    out = q.stdout + q.stderr
+    for t in extra["theorems"]:
+        m = re.search(r"'%s' depends on axioms: \[([^\]]*)\]" % re.escape(t), out, re.S)
+        if m:
+            axs = {a.strip() for a in m.group(1).replace("\n", " ").split(",") if a.strip()}
+        elif re.search(r"'%s' does not depend on any axioms" % re.escape(t), out):
+            axs = set()
+        else:
+            failures.append("theorem %s missing or not elaborating" % t)
+            continue
+        results[t] = axs
+        if axs - ALLOWED_AXIOMS:
+            failures.append("theorem %s depends on disallowed axioms %s" % (t, sorted(axs - ALLOWED_AXIOMS)))
+        else:
+            discharged += 1
+    for path in import_closure(mod):
+        src = re.sub(r"/-.*?-/", "", open(path).read(), flags=re.S)
+        for ln in src.splitlines():
+            if FORBIDDEN.search(ln.split("--")[0]):
+                failures.append("forbidden token in %s: %s" % (os.path.basename(path), ln.strip()[:80]))
+    return obligations, discharged
+
+
 def import_closure(mod):
     """paths of the project files transitively imported by module `mod` (including itself)"""
     seen, todo, out = set(), [mod], []
@@ -180,6 +237,12 @@ def proof_audit(pid, thorough=False):
         failures.append("forbidden tokens: " + "; ".join(grep_bad[:5]))
     obligations = len(reg) + 1
     discharged = sum(1 for t in reg if t in results and not (results[t] - ALLOWED_AXIOMS)) + (0 if grep_bad else 1)
+    # tie by translation: regenerate the generated model from /repo's source, rebuild and audit the gen_* theorems
+    extra = registered_extra().get(pid)
+    if extra:
+        o, d = translation_audit(pid, extra, failures, results)
+        obligations += o
+        discharged += d
     if thorough and built:
         p = subprocess.run(["lake", "env", "leanchecker", mod], cwd=LEAN, capture_output=True, text=True)
         obligations += 1
